@@ -135,6 +135,10 @@ class MilStream(Stream):
             return "the library wrote into its input(s) %s" % ", ".join(o["mutated_inputs"])
         if o.get("subset_mismatch"):
             return "F2345 asked for a subset of its outputs gives other values than when asked for all: %s" % "; ".join(o["subset_mismatch"][:4])
+        if o.get("wrote_outside_inputs"):
+            return "with its inputs handed over as windows into one contiguous record the library changed the record: " + o["wrote_outside_inputs"]
+        if o.get("depends_on_input_layout"):
+            return "the results depend on whether the inputs are separate allocations or windows into one record: " + o["depends_on_input_layout"]
         if o.get("depends_on_buffer_contents"):
             return "output(s) %s depend on what the caller's output buffer held before the call" % ", ".join(o["depends_on_buffer_contents"])
         return None
